@@ -458,52 +458,64 @@ class StmtMixin:
         return out
 
     def probe_writes(self, body: List[ast.stmt], st: State, extra_locals: Dict[str, Val], prelude=None) -> Set[str]:
-        """Execute the body once from a fully havoc'd heap to find which heap fields it can write."""
+        """Find which heap fields / cells / ghost scalars the body can write.
+        Pass 1 runs the body from a fully havoc'd heap (every path is feasible): the set W of written fields
+        over-approximates any iteration.  Pass 2 havocs only W, so that references computed from fields outside W
+        are recognisably the same in every iteration (cell-wise instead of array-wise havoc)."""
+        w1 = self._probe_once(body, st, extra_locals, prelude, None)
+        w2 = self._probe_once(body, st, extra_locals, prelude, w1)
+        return w1 | w2
+
+    def _probe_once(self, body, st: State, extra_locals, prelude, only_fields) -> Set[str]:
+        from . import sym as _sym
+
         p = st.fork()
         p.written = set()
         p.written_cells = {}
+        self._probe_start_counter = _sym._counter[0]
         for f in list(p.heap.keys()):
-            p.heap[f] = fresh("P_" + f, p.heap[f].sort())
+            if only_fields is None or f in only_fields:
+                p.heap[f] = fresh("P_" + f, p.heap[f].sort())
         for n in assigned_names(body):
             if n in p.locals:
                 old = p.locals[n]
                 if old.z is not None:
                     p.locals[n] = self.typed(p, fresh("p_" + n), old.th)
         p.locals.update(extra_locals)
-        p.pc = []
+        p.pc = [] if only_fields is None else [c for c in p.pc]
         self.probing += 1
         try:
             ghost_before = {k: v.z for k, v in p.ghost.items()}
             if prelude is not None:
                 prelude(p)
             pouts = self.exec_block(body, p)
-            self.last_probe_ghosts = set()
+            ghosts = set()
             for po in pouts:
                 for k, v in po.st.ghost.items():
                     b = ghost_before.get(k)
                     if b is None or v.z is None or not b.eq(v.z):
-                        self.last_probe_ghosts.add(k)
+                        ghosts.add(k)
+            self.last_probe_ghosts = ghosts | (getattr(self, "last_probe_ghosts", set()) if only_fields is not None else set())
         finally:
             self.probing -= 1
         w = set(p.written)
-        # container / object cells written only at references that are stable across iterations (terms over entry
-        # symbols only) can be havoc'd cell-wise instead of array-wise
         self.last_probe_cells = {}
         self.last_probe_fresh = set()
-        for f, refs in p.written_cells.items():
-            kinds = [("none" if r is None else ("stable" if self.term_is_stable(r) else ("fresh" if self.term_is_fresh(r, st) else "other")))
-                     for r in refs]
-            if all(k in ("stable", "fresh") for k in kinds):
-                uniq = []
-                for r, k in zip(refs, kinds):
-                    if k == "stable" and not any(r.eq(u) for u in uniq):
-                        uniq.append(r)
-                self.last_probe_cells[f] = uniq
-                if "fresh" in kinds:
-                    self.last_probe_fresh.add(f)
-        if st.written_cells is not None:
+        if only_fields is not None:
             for f, refs in p.written_cells.items():
-                st.written_cells.setdefault(f, []).extend(refs if f in self.last_probe_cells else [None])
+                kinds = [("none" if r is None else ("stable" if self.term_is_stable(r) else ("fresh" if self.term_is_fresh(r, st) else "other")))
+                         for r in refs]
+                if all(k in ("stable", "fresh") for k in kinds):
+                    uniq = []
+                    for r, k in zip(refs, kinds):
+                        if k == "stable" and not any(r.eq(u) for u in uniq):
+                            uniq.append(r)
+                    self.last_probe_cells[f] = uniq
+                    if "fresh" in kinds:
+                        self.last_probe_fresh.add(f)
+            if st.written_cells is not None:
+                for f, refs in p.written_cells.items():
+                    st.written_cells.setdefault(f, []).extend(refs if f in self.last_probe_cells else [None])
         return w
 
     def term_is_fresh(self, t, st: State) -> bool:
@@ -520,11 +532,19 @@ class StmtMixin:
                 core = b
             elif z3.is_int_value(b):
                 core = a
-        return z3.is_const(core) and core.decl().kind() == z3.Z3_OP_UNINTERPRETED and core.decl().name().startswith("alloc!")
+        if not (z3.is_const(core) and core.decl().kind() == z3.Z3_OP_UNINTERPRETED and core.decl().name().startswith("alloc!")):
+            return False
+        # only allocation bases introduced while probing the body (they are >= the bound at the loop head)
+        try:
+            return int(core.decl().name().split("!")[1]) > getattr(self, "_probe_start_counter", 10 ** 12)
+        except ValueError:
+            return False
 
     def term_is_stable(self, t) -> bool:
+        """No symbol of t was introduced while probing (pass 2: only written fields and assigned locals are fresh)."""
         seen = set()
         work = [t]
+        start = getattr(self, "_probe_start_counter", -1)
         while work:
             x = work.pop()
             if x.get_id() in seen:
@@ -532,8 +552,12 @@ class StmtMixin:
             seen.add(x.get_id())
             if z3.is_const(x) and x.decl().kind() == z3.Z3_OP_UNINTERPRETED:
                 n = x.decl().name()
-                if not (n.startswith("arg_") or n.startswith("ghost_") or n == "alloc0"):
-                    return False
+                if "!" in n:
+                    try:
+                        if int(n.rsplit("!", 1)[1]) > start:
+                            return False
+                    except ValueError:
+                        return False
             work.extend(x.children())
         return True
 
